@@ -49,5 +49,7 @@ func statOf(resp, key string) int {
 	return n
 }
 
-func ctName(ct int) string { return []string{"NoClip", "Intersection", "Union", "Difference", "Xor"}[ct] }
+func ctName(ct int) string {
+	return []string{"NoClip", "Intersection", "Union", "Difference", "Xor"}[ct]
+}
 func frName(fr int) string { return []string{"EvenOdd", "NonZero", "Positive", "Negative"}[fr] }
